@@ -386,6 +386,12 @@ static void run_c15_stacks(void)
     wl_rt_stop(rt);
 }
 SIM_WORKLOAD("C15", "stacks", run_c15_stacks, 10)
+/* C02: "on a stack that no other live ULT shares", over every stack provenance and freeing actor */
+static void run_c02_stacks(void)
+{
+    run_c15_stacks();
+}
+SIM_WORKLOAD("C02", "stacks", run_c02_stacks, 3)
 
 /* ================================================================ (c) descriptor churn */
 /* Worker ULTs in pools shared by several streams create small batches of tasklets / ULTs and
